@@ -2229,6 +2229,9 @@ func (vm *Thread) callNativeMethod(method *NativeMethod, argCount int) (err valu
 func (vm *Thread) callBytecodeFunctionTCO(method *BytecodeFunction, argCount int) {
 	vm.populateMissingParametersOnStack(method.parameterCount, argCount)
 
+	// the slots of the current frame are about to be reused by the callee
+	vm.opCloseUpvalues(vm.fp)
+
 	localCount := method.parameterCount + 1
 	for i := range localCount {
 		*vm.fpAdd(i) = *vm.spAdd(-localCount + i)
